@@ -10,7 +10,9 @@
 (* the test-suite (fresh object per test) never exercises.                 *)
 (*                                                                          *)
 (* Calls:  T(f, ic)    ts.tsolve(force f, initial-condition rule ic)       *)
-(*         F(f, rb)    ts.fsolve(force f, incrb rb)                        *)
+(*         F(f, rb, v) ts.fsolve(force f, incrb rb) on frequency vector v: the *)
+(*                     two vectors have the same length and the same first *)
+(*                     and last entry but different interior points        *)
 (*         G(f, k)     a complete generator session: generator(), sends in *)
 (*                     order with k add-ons at the last step, finalize()   *)
 (*         X           ts.get_f2x(...)                                     *)
@@ -29,7 +31,7 @@ CONSTANTS MaxCalls, Export, HasF, HasG, HasX
 
 Forces == {1, 2}
 Calls == {<<"T", f, ic>> : f \in Forces, ic \in {"zero", "d0v0"}}
-         \cup (IF HasF THEN {<<"F", f, rb>> : f \in Forces, rb \in {"dva", "a"}} ELSE {})
+         \cup (IF HasF THEN {<<"F", f, rb, fv>> : f \in Forces, rb \in {"dva", "a"}, fv \in {1, 2}} ELSE {})
          \cup (IF HasG THEN {<<"G", f, k>> : f \in Forces, k \in {0, 1}} ELSE {})
          \cup (IF HasX THEN {<<"X", 0, 0>>} ELSE {})
 
